@@ -74,7 +74,8 @@ type Report struct {
 
 type Options struct {
 	Deadline    time.Time // stop (exhaustive=false) when passed
-	MaxFound    int       // stop after this many distinct violation keys
+	MaxFound    int       // stop after this many distinct violation keys (known findings not counted)
+	KnownKeys   map[string]bool // keys of recorded known findings: reported, but never a reason to stop exploring
 	KeepSample  bool
 	DeepenSlice time.Duration
 }
@@ -160,13 +161,13 @@ func Explore(t *testing.T, sc *Scenario, opt Options) *Report {
 			break
 		}
 		rep.BoundDone = b
-		if len(rep.Found) > 0 {
+		if x.newFound() > 0 {
 			break // minimal-deviation counterexamples found; deeper bounds add nothing
 		}
 	}
 	// optional deepening beyond the required bound, within a time slice: a bound
 	// that does not complete in the slice is abandoned and does not count
-	if sc.Deepen > sc.Bound && rep.BoundDone == sc.Bound && rep.Cap == "" && len(rep.Found) == 0 && opt.DeepenSlice > 0 {
+	if sc.Deepen > sc.Bound && rep.BoundDone == sc.Bound && rep.Cap == "" && x.newFound() == 0 && opt.DeepenSlice > 0 {
 		saved := x.opt.Deadline
 		slice := time.Now().Add(opt.DeepenSlice)
 		if !saved.IsZero() && saved.Before(slice) {
@@ -178,7 +179,7 @@ func Explore(t *testing.T, sc *Scenario, opt Options) *Report {
 			nodes := x.rep.Nodes
 			x.rep.Nodes = 0
 			x.dfs(nil, 0)
-			if x.stop && len(rep.Found) == 0 {
+			if x.stop && x.newFound() == 0 {
 				// ran out of slice: forget the partial bound
 				x.stop = false
 				rep.Cap = ""
@@ -190,7 +191,7 @@ func Explore(t *testing.T, sc *Scenario, opt Options) *Report {
 				break
 			}
 			rep.BoundDone = b
-			if len(rep.Found) > 0 {
+			if x.newFound() > 0 {
 				break
 			}
 		}
@@ -340,11 +341,22 @@ func (x *explorer) check(prefix []int, res *vsched.Result) {
 			return
 		}
 		x.rep.Found = append(x.rep.Found, f)
-		if len(x.rep.Found) >= x.opt.MaxFound {
+		if x.newFound() >= x.opt.MaxFound {
 			x.stop = true
 			x.rep.Cap = "stopped after reaching the violation limit"
 		}
 	}
+}
+
+// newFound counts the violations found so far that are not recorded known findings.
+func (x *explorer) newFound() int {
+	n := 0
+	for _, f := range x.rep.Found {
+		if !x.opt.KnownKeys[f.Key] {
+			n++
+		}
+	}
+	return n
 }
 
 // onceCheck records violations of a run-once enumeration (each is reproduced once).
